@@ -285,7 +285,7 @@ c01 = pool_prop(
     "withdrawals, settlement failures) on both drivers; after every operation the ledger total (Stats.TotalCredit and the "
     "sum of all account and trial balances) must equal the model's; distinct = (operation, outcome class)",
     lambda tier: CONC_MC + [("VipStoreMC", "VipStoreMC_bal.cfg")] + ([("VipPoolMC", "VipPoolMC_bill_q.cfg")] if tier == "quick" else [("VipPoolMC", "VipPoolMC_bill.cfg")]),
-    weights=dict(update=40, sleep=14, forged=5, withdraw=4, credit=3, addnode=5),
+    weights=dict(update=40, sleep=14, forged=5, withdraw=8, credit=4, addnode=5, settlemode=4, deposit=3),
     extra_jobs=store_ledger_jobs)
 
 c02 = pool_prop(
@@ -538,6 +538,9 @@ def c10(pid, tier, work, replay):
     w["sburst"] = 15
     jobs = pool_jobs("c10", "C10", s, nt, nops, work, weights=w, chunks=chunks)
     jobs += race_jobs("c10race", s, tier, work, "ledger")
+    # many fresh pools whose very first keep-alives run in parallel (lazily initialised state races there)
+    jobs += pool_jobs("c10fresh", "C10race", s + 5, sized(tier, 120, 1500), 0, work, cfg=RACE_CFG,
+                      weights=dict(burst=1), chunks=1 if tier == "quick" else 4, binary="viprace")
     jobs += nonce_race_jobs("c10nonce", s, tier, work)
     return trace_family(
         pid, tier, work, CONC_MC + [("VipStoreMC", "VipStoreMC_bal.cfg"), ("VipPoolMC", "VipPoolMC_bill_q.cfg" if tier == "quick" else "VipPoolMC_bill.cfg")], jobs,
